@@ -783,6 +783,9 @@ func init() {
 		doubleFailure(c)
 		parkedWatchReconnect(c)
 		flowCase(c, "stop", 1040)
+		for i := 0; i < 4*c.budget && !c.expired(); i++ {
+			drainRace(c, 700)
+		}
 		outage(c, 1, 0)
 		outage(c, 3, 0)
 		outage(c, 1, 1040)
